@@ -347,3 +347,54 @@ Theorem C06_crlf_sam_is_source : forall o hs rs t fuel fuel',
     ImpGen.imp_samrd_ReaderHeader fuel' o (GoSem.Stream (sam_file o hs rs) (ImpProofsJ.term_code t) None) = GoSem.Ret (st', items).
 Proof. exact ImpProofsT.sam_crlf_src. Qed.
 Print Assumptions C06_crlf_sam_is_source.
+
+(* ---- File, as translated ---------------------------------------------------------------------------------------
+   The File adapters (aio.Open, the error item of a failing open, the deferred Close, the loop
+   forwarding Reader's items) as translated on this run; whether the file opens and what it holds
+   is the parameter open__ (GoSem.go_open: None = the open fails).  A file that opens gives
+   exactly the items of Reader on its content; one that does not gives exactly one error item. *)
+From Bio.Proofs Require ImpProofsH ImpProofsK ImpProofsL ImpProofsQ ImpProofsR ImpProofsZ.
+
+Theorem C06_file_fasta_is_source : forall fuel file inp t, (length inp + 2 < fuel)%nat ->
+  ImpGen.imp_fastard_File fuel None file = GoSem.Ret (GoSem.Stream [] 2%Z None, [(ImpProofsJ.fa_zero, 2%Z)])
+  /\ ImpGen.imp_fastard_File fuel (Some (GoSem.Stream inp (ImpProofsJ.term_code t) None)) file
+     = GoSem.Ret (GoSem.Stream [] (ImpProofsJ.term_code t) None, map (ImpProofsJ.fa_item t) (Fasta.decode inp t)).
+Proof.
+  intros fuel file inp t H. split; [apply ImpProofsZ.imp_fasta_File_closed | apply ImpProofsZ.imp_fasta_File_open; exact H].
+Qed.
+Print Assumptions C06_file_fasta_is_source.
+
+Theorem C06_file_fastq_is_source : forall fuel file cur (toks : list bytes) t, (length toks + 1 < fuel)%nat ->
+  ImpGen.imp_fastqrd_File fuel None file = GoSem.Ret (GoSem.Scanner [] [] 2%Z true, [(ImpProofsK.fq_zero, 2%Z)]) /\
+  exists s' out, ImpGen.imp_fastqrd_File fuel (Some (GoSem.Scanner cur toks (ImpProofsK.scan_code t) false)) file = GoSem.Ret (s', out)
+                 /\ Forall2 ImpProofsK.fq_item_ok (Fastq.decode_toks t toks) out.
+Proof. exact ImpProofsZ.imp_fastq_File_ok. Qed.
+Print Assumptions C06_file_fastq_is_source.
+
+Theorem C06_file_bed_is_source : forall fuel file s t, (length s + 2 < fuel)%nat ->
+  ImpGen.imp_bed_File fuel None file = GoSem.Ret (GoSem.Stream [] 2%Z None, [(ImpProofsH.zero_bed, 2%Z)]) /\
+  exists st, ImpGen.imp_bed_File fuel (Some (GoSem.Stream s (ImpProofsJ.term_code t) None)) file
+             = GoSem.Ret (st, map ImpProofsL.bed_item (Bed.decode s t)).
+Proof. exact ImpProofsZ.imp_bed_File_ok. Qed.
+Print Assumptions C06_file_bed_is_source.
+
+Theorem C06_file_sam_is_source : forall fuel o file s t, (length s + 1 < fuel)%nat ->
+  ImpGen.imp_samrd_File fuel o None file = GoSem.Ret (GoSem.Stream [] 2%Z None, [(None, 2%Z)]) /\
+  ImpGen.imp_samrd_FileHeader fuel o None file = GoSem.Ret (GoSem.Stream [] 2%Z None, [ImpProofsQ.sh_item ErrItem]) /\
+  (exists st, ImpGen.imp_samrd_File fuel o (Some (GoSem.Stream s (ImpProofsJ.term_code t) None)) file
+              = GoSem.Ret (st, map ImpProofsQ.sr_item (Sam.reader o s t))) /\
+  (exists st, ImpGen.imp_samrd_FileHeader fuel o (Some (GoSem.Stream s (ImpProofsJ.term_code t) None)) file
+              = GoSem.Ret (st, map ImpProofsQ.sh_item (Sam.reader_header o s t))).
+Proof. exact ImpProofsZ.imp_sam_File_ok. Qed.
+Print Assumptions C06_file_sam_is_source.
+
+Theorem C06_file_newick_is_source : forall o tm fuel h file s, (length s + 2 < fuel)%nat ->
+  ImpGen.imp_newickrd_File fuel o h None file = GoSem.Ret (GoSem.Stream [] 2%Z None, (h, [((-1)%Z, 2%Z)])) /\
+  match Newick.decode o s tm with
+  | Ok items => exists st h' out,
+      ImpGen.imp_newickrd_File fuel o h (Some (GoSem.Stream s (ImpProofsJ.term_code tm) None)) file = GoSem.Ret (st, (h', out)) /\
+      Forall2 (ImpProofsR.item_holds h') items out /\ ImpProofsR.keeps (GoSem.go_len h) h h'
+  | _ => True
+  end.
+Proof. exact ImpProofsZ.imp_newick_File_ok. Qed.
+Print Assumptions C06_file_newick_is_source.
